@@ -18,14 +18,15 @@ out = ["# Sensitivity of the checks: seeded regressions", "",
        "  the first round's regressions), 20 more in a third round (asked for regressions",
        "  made of two cooperating changes or depending on state left by earlier calls), 20 more in a fourth round (capacity / boundary",
        "  paths of data structures, rarely used entry points and argument combinations, arithmetic slips), 20 more in a fifth round (error and cleanup",
-       "  paths, interplay of two features, second element / object / call of a kind). Each agent saw only the text of one property and its own git worktree of `/repo`; nothing from",
+       "  paths, interplay of two features, second element / object / call of a kind), 10 more in a sixth round",
+       "  (properties C02 C06 C08 C09 C12 C14 C15 C16 C18 C20). Each agent saw only the text of one property and its own git worktree of `/repo`; nothing from",
        "  `/verif`. Every regression compiles, passes the repository's 48 tests and comes with a demonstration that passes without and",
        "  fails with the change; all three facts were re-confirmed with `tools/verify_seeded.sh` before the regression was kept.",
        "* **own mutants** - quick plausibility mutants from the lists in DESIGN.md section 7 (not kept as files; listed below).", "",
        "`tools/mutant.sh <patch> <ID>` runs the quick tier of a check against a patched scratch copy (`VERIF_REPO`); `tools/record_seeded.py`",
        "folds the logs (`tools/logs/`) into `seeded/*/meta.json`, from which this file is generated (`tools/gen_sensitivity.py`).", "",
        "## Seeded regressions (sub-agents)", "",
-       "m1, m2: first round; m3, m4: second round (rarer triggers); m5, m6: third round (cooperating changes, state / order dependence); m7, m8: fourth round (capacity / boundary paths, rarely used entry points, arithmetic slips); m9, m10: fifth round (error / cleanup paths, interplay of two features, second element / object / call).", "",
+       "m1, m2: first round; m3, m4: second round (rarer triggers); m5, m6: third round (cooperating changes, state / order dependence); m7, m8: fourth round (capacity / boundary paths, rarely used entry points, arithmetic slips); m9, m10: fifth round (error / cleanup paths, interplay of two features, second element / object / call); m11, m12: sixth round (ten properties; what a careful reviewer could still miss).", "",
        "| id | what it breaks (one line) | checks as they were when it arrived | after strengthening | cases until the verdict |",
        "|----|---------------------------|-------------------------------------|---------------------|-------------------------|"]
 for d, title, meta in rows:
@@ -153,7 +154,17 @@ out += ["", "%d of the %d were caught by the checks as they were when the regres
         "| C18-m10 | descriptor closed twice when a directory is read as a file | storm mode; sub-directories with drop-in names and directories read as files in the thread programs; the driver now runs mode drivers first and makes a second pass without fail-fast when an early failure is not confirmed |",
         "| C20-m9 | file name copy leaks on the wrong-directory-permission path | C20 fault kind: permission requirement the directories do not satisfy |",
         "| C20-m10 | drop-ins-only mode overwrites the object's CONFIG_DIRS strings without freeing them | C20 gives the options object a CONFIG_DIRS item in drop-ins-only mode and sends it through a failing read first |",
-        "| C04-m9 | cleanup after a failed later drop-in frees an uninitialised slot (caught on arrival by C13 and C20) | C04 reads its byte strings also as members of a layered read behind a harmless first drop-in |", "",
+        "| C04-m9 | cleanup after a failed later drop-in frees an uninitialised slot (caught on arrival by C13 and C20) | C04 reads its byte strings also as members of a layered read behind a harmless first drop-in |",
+        "| C02-m12 | `econf_getKeys` for an absent section registers that section | C02 asks for the keys of an absent section and requires the listing to be unchanged |",
+        "| C06-m11 | the check is skipped when it was registered with a NULL data pointer | C06 registers the callback with a NULL data pointer in ~9% of its cases |",
+        "| C06-m12 | a drop-in reached a second time by the same path is not checked again | C06 scenario with the same directory given twice; with an accept-all callback the history must have as many members as there were checks, and refusing the n-th check must fail the call |",
+        "| C08-m11 | a new key set through the section name `\"\"` lands in a section named `\"\"` | C08's group-less setters use NULL, `\"\"` and `[]` in turn |",
+        "| C09-m12 | decimal literals that underflow to zero are refused | C09 generates literals below half the smallest subnormal (float and double): +0 / -0 expected |",
+        "| C12-m11 | a PARSING_DIRS list stops at an empty element | when the vendor directory argument is NULL/empty, C12 compares with the layered read configured as `PARSING_DIRS=:<etc>` |",
+        "| C14-m11 | `econf_writeFile` goes through `<name>.tmp`: names of 252-255 bytes fail | C14's name cells also write a file whose name has the cell's length |",
+        "| C14-m12 | ROOT_PREFIX of more than PATH_MAX bytes: snprintf return value used as offset | C14's option-item cells add a ROOT_PREFIX item of the cell's length and expect a clean NOFILE |",
+        "| C15-m11 | JOIN_SAME_ENTRIES matches keys by prefix | C15's JOIN files have a key whose name starts with another key's name |",
+        "| C16-m11 | the file accepted last is not checked again when the rules change without a reset | 30% of C16's cases read the tree first under a requirement every file satisfies, then set the real rules |", "",
         "Own mutants exposed two more gaps (both closed): a shallow copy of `comment_before_key` in `cpy_file_entry` (C03 now takes a full",
         "extended dump of the merge result after both inputs were freed, parsed inputs carry comments) and `econftool` printing at most two",
         "value lines (C19's multi-line values now have 2-4 lines).", "",
